@@ -5,6 +5,7 @@
   `pg`/`p` are log10 pressures (see `computeOpacity_eq` for the Pa form).
 -/
 import Proofs.C04Lemmas
+import Proofs.C04Cache
 
 namespace Taurex.C04
 open Taurex.Interp Taurex.C04L
@@ -333,5 +334,48 @@ theorem interior_explin (tg pg : List ℝ) (tab : List (List ℝ)) (t p : ℝ)
   rw [interpExpLin_nested _ _ _ _ _ _ _ _ _ _ a']
   exact interpExp_geo _ _ _ _ _ (interpLin_pos _ _ _ _ _ (hpos _ _) (hpos _ _) a' b' c')
     (interpLin_pos _ _ _ _ _ (hpos _ _) (hpos _ _) a' b' c')
+
+/-! ### the interpolation mode of a table served by a cache (`_interp_mode`, the property's state anchor)
+
+  "The cross-section returned for a molecule" comes from an object a cache builds from a file it discovers; which of the two
+  documented forms it follows inside a cell is decided by the mode handed to the loader's constructor.  In the cache machines
+  (`CacheSM.loadStep` for OpacityCache, `loadStepK` for KTableCache) that mode is `GlobalCache()['xsec_interpolation'] or
+  'linear'` for EVERY loader class: the format of the discovered file is read only to decide `in_memory` of an HDF5
+  cross-section.  The harness holds every loader class of /repo (pickle, HDF5, Exo-Transmit cross-sections; pickle, HDF5,
+  NEMESIS k-tables) to this on real files. -/
+
+open Taurex.CacheSM in
+/-- a molecule not yet cached, discovered in a file of ANY loader class, is served in the configured mode (both caches) -/
+theorem discovered_mode (m : String) (s : CSt) (e : FileEntry) (hd : e.disc = m) (ho : e.obj = m)
+    (hk : hasKey s.dict m = false) :
+    (lookup (loadStepK m s e).dict m).map (·.mode) = some (interpOr s) ∧
+    (lookup (loadStep m s e).dict m).map (·.mode) = some (interpOr s) := by
+  subst hd
+  constructor
+  · simp only [loadStepK, addOpacity, ho, hk, beq_self_eq_true, if_true, Bool.not_false, Bool.false_eq_true, if_false]
+    rw [C04L.lookup_append_new _ _ _ hk]
+    rfl
+  · simp only [loadStep, addOpacity, ho, hk, beq_self_eq_true, if_true, Bool.not_false, Bool.false_eq_true, if_false,
+      Bool.and_self]
+    rw [C04L.lookup_append_new _ _ _ hk]
+    rfl
+
+open Taurex.CacheSM in
+/-- NV: an Exo-Transmit file of H2O, `xsec_interpolation = 'exp'` configured, nothing cached: served in mode 1 ('exp') -/
+example : (lookup (loadStep "H2O" { init with interp := some 1, path := some 0 }
+    { fmt := Fmt.exo, fileId := 0, disc := "H2O", obj := "H2O" }).dict "H2O").map (·.mode) = some 1 := by
+  decide
+
+open Taurex.CacheSM in
+/-- the loader class of the discovered file does not enter what the cache machines do with it (HDF5 cross-sections, whose
+    `in_memory` flag is recorded, apart): a k-table file of a class the model has no name for (NEMESIS `.kta`) is the
+    machine's k-table file of any other class -/
+theorem discovered_mode_any_class (m : String) (s : CSt) (e : FileEntry) (f : Fmt)
+    (hf : f ≠ Fmt.hdf) (he : e.fmt ≠ Fmt.hdf) :
+    loadStepK m s { e with fmt := f } = loadStepK m s e ∧ loadStep m s { e with fmt := f } = loadStep m s e := by
+  simp [loadStepK, loadStep, hf, he]
+
+open Taurex.CacheSM in
+example : (Fmt.kpickle ≠ Fmt.hdf) ∧ (Fmt.khdf ≠ Fmt.hdf) ∧ (Fmt.exo ≠ Fmt.hdf) := by decide
 
 end Taurex.C04
